@@ -97,6 +97,15 @@ func (r *Run) checkLemmas(ld *Loaded, prop string) {
 			continue
 		}
 		n := ld.lemmaCases(fn)
+		if r.Tier != "thorough" {
+			if c, ok := fn.Pkg.Pkg.Scope().Lookup(fn.Name() + "_QuickN").(*types.Const); ok {
+				v, _ := constant.Int64Val(c.Val())
+				if int(v) < n {
+					r.Notes["quick_tier_subset:"+fn.Name()] = fmt.Sprintf("%d of %d cases (all in the thorough tier)", v, n)
+					n = int(v)
+				}
+			}
+		}
 		ks := []int{-1}
 		if n > 0 {
 			ks = ks[:0]
